@@ -525,15 +525,32 @@ def attribute_scans(ctx):
     d = [f for f in P.fns.values() if f.id.endswith('grammar::Attributes::doc')]
     if d:
         f = d[0]
-        ps = [c for c in f.calls(lambda r: r['path'] and r['path'].endswith('String::push_str'))]
-        pc = [c for c in f.calls(lambda r: r['path'] and r['path'].endswith('String::push'))]
-        ok = len(ps) == 1 and len(pc) == 1
+        fam = [f] + P.closures_of(f)
+        ps = [(g, c) for g in fam for c in g.calls(lambda r: r['path'] and r['path'].endswith('String::push_str'))]
+        pc = [(g, c) for g in fam for c in g.calls(lambda r: r['path'] and r['path'].endswith('String::push'))]
+        ok = len(ps) == 1 and len(pc) == 1 and ps[0][0] is pc[0][0]
         if ok:
-            v = f.expr_of_operand(ps[0]['term']['args'][1])
-            sep = f.expr_of_operand(pc[0]['term']['args'][1])
-            ok = bool(find_calls(v, 'string_literal')) and (sep == ('int', 10, 'char') or (sep[0] in ('const', 'str') and '\\n' in str(sep[1])))
-            L = innermost_loop(f, ps[0]['block'])
-            ok = ok and bool(L) and pc[0]['block'] in L[1]
+            g, c1 = ps[0]
+            c2 = pc[0][1]
+            v = g.expr_of_operand(c1['term']['args'][1])
+            sep = g.expr_of_operand(c2['term']['args'][1])
+            okv = bool(find_calls(expand(g, v), 'string_literal'))
+            per_item = False
+            if g is f:
+                L = innermost_loop(f, c1['block'])
+                per_item = bool(L) and c2['block'] in L[1]
+            else:
+                # the appends sit in the callback of a fold over the collected doc strings: once per string, in order
+                for cf_ in f.calls(lambda r: r['gpath'] and r['gpath'].endswith('Iterator::fold')):
+                    fe = f.expr_of_call(cf_['term'])
+                    if len(fe[2]) == 3 and fe[2][2][0] == 'closure' and fe[2][2][1] == g.id:
+                        src_ = expand(f, fe[2][0])
+                        per_item = not any(re.search(r'Iterator::(rev|skip|take|step_by|skip_while|take_while)$', c_[3]) for c_ in calls_in(src_))
+                        in_chain = bool(find_calls(src_, 'string_literal')) or any(
+                            isinstance(y, tuple) and y and y[0] == 'closure' and y[1] in P.fns and any(find_calls(expand(P.fns[y[1]], x_['expr']), 'string_literal') for x_ in P.fns[y[1]].exits())
+                            for y in walk(src_))
+                        okv = okv or (strip(v)[0] == 'arg' and in_chain)
+            ok = okv and (sep == ('int', 10, 'char') or (sep[0] in ('const', 'str') and '\\n' in str(sep[1]))) and per_item
         ctx.ob(['C17'], 'R-EXPR', 'DOC|joined-in-order', ok, 'Attributes::doc appends the string of every `doc = ".."` attribute in list order, separated by a newline', loc(f.span))
 
 
